@@ -117,6 +117,9 @@ class api_fix:
              "should_fix": BOOL}
     ret = Text
     ghost_out = {"lint_result": ("result", LintingResult), "feu": ("fix_even_unparsable", TOpt(BOOL))}
+    # a configuration error (unknown dialect, no dialect at all, a config path that does not exist) is reported by raising
+    # SQLFluffUserError: nothing is returned, so nothing was modified -- allowed, the property speaks about what IS returned
+    raises = {"SQLFluffUserError": None}
 
     def ensures(sql, dialect, rules, exclude_rules, config, config_path, fix_even_unparsable, result, lint_result, feu):
         # unless fixing unparsable files is explicitly enabled, SQL with a templating or parsing error -- even a
